@@ -139,6 +139,20 @@ def chk_band(inp):
             return bad("photons_per_band != flux*expTime*area in band " + b, ph, fl * t * mask.sum() * p ** 2)
         if rel(S.photons_per_band(m, mask, p, t * k, b), ph * k) > 1e-9 or rel(S.photons_per_band(m, mask, p * k, t, b), ph * k * k) > 1e-9:
             return bad("photons_per_band not proportional to exposure time / area in band " + b, None, None)
+    # catalogue magnitudes held as integers (also unsigned, also in arrays): the same flux as for the float of the same value
+    for b in bands[:3]:
+        for mi in (0, 1, 5, 12):
+            want = S.magnitude_to_flux(float(mi), b)
+            for typed in (int(mi), numpy.uint8(mi), numpy.uint16(mi), numpy.int32(mi), numpy.uint64(mi), numpy.float32(mi)):
+                got = S.magnitude_to_flux(typed, b)
+                if not rel(got, want) <= 1e-6:
+                    return bad("magnitude_to_flux(%s(%d), %s) differs from magnitude_to_flux(%d.0, %s)" % (type(typed).__name__, mi, b, mi, b), float(got), float(want))
+            arr = S.magnitude_to_flux(numpy.array([mi, mi + 1], dtype="uint8"), b)
+            if not (rel(arr[0], want) <= 1e-9 and rel(arr[1], S.magnitude_to_flux(mi + 1.0, b)) <= 1e-9):
+                return bad("magnitude_to_flux of a uint8 array differs from the float values in band " + b, numpy.asarray(arr).tolist(), [float(want)])
+            ph_u = S.photons_per_band(numpy.uint8(mi), mask, p, t, b)
+            if not rel(ph_u, want * t * mask.sum() * p ** 2) <= 1e-9:
+                return bad("photons_per_band(uint8 magnitude) != flux*expTime*area in band " + b, float(ph_u), float(want * t * mask.sum() * p ** 2))
     if rel(S.magnitude_to_flux(m), S.magnitude_to_flux(m, 'V')) > 0 or S.flux_to_magnitude(f) != S.flux_to_magnitude(f, 'V'):
         return bad("default band is not V", None, None)
 
@@ -160,7 +174,7 @@ def chk_axis(inp):
     rng = numpy.random.default_rng(11)
     for fn in fns:
         F = getattr(A, fn)
-        for shape in ((4, 4), (3, 5), (3, 3, 3), (2, 4, 3)):
+        for shape in ((4, 4), (3, 5), (3, 3, 3), (2, 4, 3), (5, 1), (1, 5), (3, 1, 5), (1, 1, 4)):
             cn2 = 10 ** rng.uniform(-14, -12, size=shape)
             h = 10 ** rng.uniform(2, 4, size=shape)
             for axis in list(range(-len(shape), len(shape))) + [None]:
